@@ -22,6 +22,7 @@ Code → labels:
 * `visitSkippingIfLocked`: first locked section = `visitBegin … skipping:=true` (snapshot + acquire all);
   every callback = `visitCb` (no lock; the order of `range vstd` = Go map order = the label's choice of `s`);
   final locked section = `visitEnd`.
+* `Shutdown()`                         → `shutdown` (sets `done`)
 * `visitWaitingIfLocked`: first locked section = `visitBegin … skipping:=false` (snapshot only); per item one
   locked section `visitTry` (gone ⇒ skipped, exclusive ⇒ sleeps and retries, else acquired), callback return =
   `visitCb`, final locked section = `visitEnd`.
@@ -69,6 +70,10 @@ structure St where
   c : Core
   vis : Nat → Option Visit
   panicked : Bool
+  /-- `ims.done`: set by `Shutdown()`; acquisitions and visits then fail, a waiting `Visit` that notices it in its
+  per-item section returns at once WITHOUT its final locked section (what it still owes stays acquired: the
+  process is about to exit) -/
+  done : Bool := false
 
 def upd {α : Type} (f : Nat → α) (k : Nat) (v : α) : Nat → α := fun x => if x = k then v else f x
 
@@ -174,6 +179,7 @@ inductive Lbl
   | visitTry (a : Nat) (s : Nat)
   | visitCb (a : Nat) (s : Nat) (cont : Bool)
   | visitEnd (a : Nat)
+  | shutdown
 deriving Repr
 
 /-- may actor `a` hand back an acquisition of `s` now? (not while it holds `s` exclusively) -/
@@ -187,6 +193,7 @@ def cbOk (v : Visit) (s : Nat) : Bool :=
 
 def step (st : St) : Lbl → Option St
   | .getOrCreate a tags create =>
+    if st.done then some st else                 -- "already shut-down."
     match findTags st.c.parts tags st.c.next with
     | some s =>
       match st.c.parts s with
@@ -200,6 +207,7 @@ def step (st : St) : Lbl → Option St
                                         holds := ⟨a, st.c.next, false⟩ :: st.c.holds, next := st.c.next + 1 } }
       else some st                             -- NotFound
   | .getTags a s lock =>
+    if st.done then some st else                 -- "already shut-down."
     match st.c.parts s with
     | none => some st                          -- NotFound
     | some p =>
@@ -242,6 +250,7 @@ def step (st : St) : Lbl → Option St
     match st.vis a with
     | some _ => none
     | none =>
+      if st.done then some st else               -- "already shut-down.": no visit starts
       let r := snap a sel skipping (List.range st.c.next) st.c.parts st.c.holds
       some { st with c := { st.c with parts := r.1, holds := r.2.1 },
                      vis := upd st.vis a (some ⟨skipping, noRelease, r.2.2, if skipping then r.2.2 else [], none, false⟩) }
@@ -250,6 +259,7 @@ def step (st : St) : Lbl → Option St
     | none => none
     | some v =>
       if v.skipping || v.aborted || v.cur.isSome || !v.pending.contains s then none else
+      if st.done then some { st with vis := upd st.vis a none } else   -- `return errors2.WrongState`, no final section
       match st.c.parts s with
       | none => some { st with vis := upd st.vis a (some { v with pending := v.pending.erase s }) }   -- vstd[i] = nil
       | some p =>
@@ -276,8 +286,9 @@ def step (st : St) : Lbl → Option St
         let r := relAll a v.owed st.c.parts st.c.holds
         some { st with c := { st.c with parts := r.1, holds := r.2 }, vis := upd st.vis a none }
       else none
+  | .shutdown => some { st with done := true }
 
-def init : St := ⟨⟨fun _ => none, 0, [], fun _ => none⟩, fun _ => none, false⟩
+def init : St := ⟨⟨fun _ => none, 0, [], fun _ => none⟩, fun _ => none, false, false⟩
 
 /-- a trace; labels that are not enabled are skipped -/
 def run (st : St) : List Lbl → St
